@@ -18,7 +18,9 @@ def main():
         base[prop] = {}
         for un in cfg['units']:
             g, out = res[un]
-            base[prop][un] = sorted(k for k, v in g.obligations.items() if prop in v['props'] and k not in out['failed'])
+            import re as _re
+            also = [_re.compile(x) for x in cfg.get('also', [])]
+            base[prop][un] = sorted(k for k, v in g.obligations.items() if (prop in v['props'] or any(r.search(k) for r in also)) and k not in out['failed'])
         print(prop, {k: len(v) for k, v in base[prop].items()})
     with open(os.path.join(ROOT, 'baseline_obligations.json'), 'w') as f:
         json.dump(base, f, indent=1, sort_keys=True)
